@@ -52,6 +52,9 @@ pub struct GenCfg {
     pub dup_parent: bool,
     /// operations that create a remote child root from an extracted context (C11)
     pub remote_children: bool,
+    /// a local collector at the bottom of the guard stack may be collected while local spans
+    /// recorded under it are still open (they are closed at the collection time)
+    pub collect_open: bool,
 }
 
 impl GenCfg {
@@ -88,6 +91,7 @@ impl GenCfg {
             any_trace_order: false,
             dup_parent: false,
             remote_children: false,
+            collect_open: false,
         }
     }
 }
@@ -243,6 +247,9 @@ impl<'a> Gen<'a> {
         if c.allow_lc && depth < c.max_depth && s.n_sets < c.max_sets {
             push(&mut alts, Op::LcStart);
         }
+        if c.collect_open && s.stacks[a].len() > 1 && s.stacks[a][0] == GK::Lc && s.stacks[a][1..].iter().all(|g| *g == GK::Local) {
+            push(&mut alts, Op::LcCollect { set: s.n_sets as u32 });
+        }
         match s.stacks[a].last() {
             Some(GK::Lc) => {
                 push(&mut alts, Op::LcCollect { set: s.n_sets as u32 });
@@ -352,7 +359,10 @@ impl<'a> Gen<'a> {
                     s.stacks[a].pop();
                 }
                 Op::LcCollect { set } => {
-                    s.stacks[a].pop();
+                    // the collector may sit below still-open local spans
+                    if let Some(pos) = s.stacks[a].iter().rposition(|g| *g == GK::Lc) {
+                        s.stacks[a].remove(pos);
+                    }
                     s.live_sets.push(*set);
                     s.n_sets += 1;
                 }
